@@ -19,8 +19,16 @@ impl TemplateLibrary {
         let mut templates = HashMap::new();
 
         let mut elem_id = 0;
+        // Files are added in the order in which they were parsed and the first definition of
+        // a name is the one kept (the others are reported by `Merger::add_definitions`).
+        let mut library_contents: Vec<_> = library_contents.into_iter().collect();
+        library_contents.sort_unstable_by_key(|(file_id, _)| *file_id);
         for (file_id, file_contents) in library_contents {
             for definition in file_contents {
+                let name = definition.name();
+                if functions.contains_key(&name) || templates.contains_key(&name) {
+                    continue;
+                }
                 match definition {
                     Definition::Function { name, args, arg_location, body, .. } => {
                         functions.insert(
